@@ -23,6 +23,16 @@ Proof.
   apply (H cfgT (hist_redestroy ++ [OUnpickle 0]) 1%nat 2%nat Eager 1); solve_side.
 Qed.
 
+(* the same with caching off: the purge of destroySelf removes the weak entry too *)
+Definition cfgF : config := {| doCache := false; cullFreq := 100; cullFrac := 2 |}.
+Lemma C04_unique_stmt_false_nocache :
+  exists ops o1 o2 k id, forallb guard04 ops = true /\
+    held (run cfgF ops) o1 /\ held (run cfgF ops) o2 /\ current (run cfgF ops) o1 /\ current (run cfgF ops) o2 /\
+    is_row (run cfgF ops) o1 k id /\ is_row (run cfgF ops) o2 k id /\ o1 <> o2.
+Proof.
+  exists (hist_redestroy ++ [OUnpickle 0]), 1%nat, 2%nat, Eager, 1. solve_side.
+Qed.
+
 Lemma C04_unpickle_no_duplicate_stmt_false : ~ C04_unpickle_no_duplicate_stmt.
 Proof.
   intros H.
@@ -86,3 +96,4 @@ Print Assumptions C04_deleted_not_returned_stmt_false.
 Print Assumptions C05_coherent_stmt_false_nocv.
 Print Assumptions C05_coherent_stmt_false_range.
 Print Assumptions C05_read_stmt_false.
+Print Assumptions C04_unique_stmt_false_nocache.
